@@ -75,7 +75,7 @@ CHECKS = [
      "note": NOTE_A + " Statistical quality of NumPy's generator is outside the claim.",
      "text": "Bounded symbolic verification of draw_sample for ScalingOperator, DiagonalOperator (all mode flips, partial-space "
              "diagonals), SandwichOperator (matrix / diagonal / scaling buns, nested flips), BlockDiagonalOperator, makeOp on "
-             "multi-fields, OperatorAdapter, SumOperator and SamplingEnabler (real CG, n <= 2), real and complex sampling dtypes, "
+             "multi-fields, OperatorAdapter, SumOperator and SamplingEnabler (real CG, n = 1), real and complex sampling dtypes, "
              "forward and inverse draws: samples are linear in the white noise with zero mean and z3 refutes T T^H != A (A^-1) for "
              "ALL positive operator data; every refusal clause (no dtype, non-positive/complex data, non-invertible cases) must raise.",
      "design_ref": "DESIGN.md 4/C13"},
